@@ -21,7 +21,7 @@ RULE = ("coolers with 2 and 3 chromosomes (fixed and variable width), chromosome
         "volatile) bit-identical; for every bin-aligned region of every chromosome: extent, bins().fetch and matrix().fetch under the "
         "new name == under the old name before; old names that no longer exist are refused. Non-trivial: >=1 name changes. Distinct by "
         "construction.")
-EXTRA_LEGS = 'every other chain applies its last renaming through a Cooler object opened before the history was applied through another object.'
+EXTRA_LEGS = "manycontigs: 3000 contigs renamed from short to long names and back (the HDF5 enum of the bin table's chromosome labels crosses its header size limit); " + 'every other chain applies its last renaming through a Cooler object opened before the history was applied through another object.'
 BOUNDS = {"quick": "all maps; chains of depth 2 over a 5-map sub-alphabet", "thorough": "all maps; chains of depth 3"}
 ASSUMPTIONS = ["names are ASCII without ':'"]
 EXPECT_CLASSES = {"*": ["map:swap-or-cycle", "map:longer", "map:shorter", "map:partial", "enc:enum", "enc:int", "chain"]}
@@ -91,6 +91,10 @@ def units(tier):
             for lo in range(0, nmaps, 12):
                 yield {"leg": "maps", "s": si, "enc": enc, "lo": lo, "hi": min(nmaps, lo + 12)}
             yield {"leg": "chain", "s": si, "enc": enc, "depth": 3 if tier == "thorough" else 2}
+    # many contigs: the chromosome labels of the bin table are an HDF5 enum whose header has a size limit - with 3000 contigs the
+    # enum fits under the short names and not under the long ones (and the other way round), so the renaming crosses that limit
+    for direction in ("short-to-long", "long-to-short"):
+        yield {"leg": "manycontigs", "direction": direction}
 
 
 def snapshot(p):
@@ -292,7 +296,75 @@ def _replay_maps(names0, hist):
     return out
 
 
+def _manycontigs(R, unit, only):
+    import cooler
+    import pandas as pd
+    nc = 3000
+    short = ["c%04d" % k for k in range(nc)]
+    long_ = [("scaffold_with_a_rather_long_name_%04d" % k) if k % 2 == 0 else short[k] for k in range(nc)]
+    src, dst = (short, long_) if unit["direction"] == "short-to-long" else (long_, short)
+    bins = pd.DataFrame({"chrom": pd.Categorical(np.repeat(src, 2), categories=src, ordered=True), "start": np.tile([0, 5], nc), "end": np.tile([5, 8], nc)})
+    pix = pd.DataFrame({"bin1_id": [0, 0, 1, 2 * nc - 3, 2 * nc - 2], "bin2_id": [0, 3, 2 * nc - 1, 2 * nc - 2, 2 * nc - 1], "count": [1, 2, 3, 4, 5]})
+    inner = {"direction": unit["direction"], "contigs": nc}
+    R.add("states")
+    R.add("traces")
+    R.ev(1, 1)
+    R.add("transitions")
+    R.cls("manycontigs")
+    p = scratch.fresh()
+    try:
+        cooler.create_cooler(p, bins, pix, ordered=True)
+        with h5py.File(p, "r") as f:
+            R.cls("manycontigs:enum-before" if h5py.check_dtype(enum=f["bins/chrom"].dtype) else "manycontigs:integer-before")
+        clr = cooler.Cooler(p)
+        before_snap = snapshot(p)
+        probe = [0, 1, 2, nc // 2, nc - 2, nc - 1]
+        before = {k: (tuple(int(x) for x in clr.extent(src[k])), clr.matrix(balance=False).fetch(src[k]).tolist(), clr.bins().fetch(src[k])["start"].tolist()) for k in probe}
+        d = {a: b for a, b in zip(src, dst) if a != b}
+        try:
+            cooler.rename_chroms(clr, d)
+        except Exception as e:
+            R.mismatch("rename-raises:" + type(e).__name__, inner, f"{e!s:.200}")
+            return
+        with h5py.File(p, "r") as f:
+            R.cls("manycontigs:enum-after" if h5py.check_dtype(enum=f["bins/chrom"].dtype) else "manycontigs:integer-after")
+        if snapshot(p) != before_snap:
+            R.mismatch("something-other-than-names-changed", inner, "")
+        for which, c in (("same-object", clr), ("reopened", cooler.Cooler(p))):
+            try:
+                if list(c.chromnames) != dst:
+                    R.mismatch("names!=renamed-in-original-order:" + which, inner, f"first differences {[(a, b) for a, b in zip(c.chromnames, dst) if a != b][:3]}")
+                    continue
+                bt = c.bins()[:]
+                lab = bt["chrom"]
+                labels = [dst[int(x)] for x in lab] if pd.api.types.is_integer_dtype(lab.dtype) else [str(x) for x in lab]
+                want = [nm for nm in dst for _ in (0, 1)]
+                if labels != want:
+                    bad = [(q, a, b) for q, (a, b) in enumerate(zip(labels, want)) if a != b][:3]
+                    R.mismatch("bin-table-labels-not-renamed:" + which, inner, f"(row, got, want) {bad}")
+                for k in probe:
+                    got = (tuple(int(x) for x in c.extent(dst[k])), c.matrix(balance=False).fetch(dst[k]).tolist(), c.bins().fetch(dst[k])["start"].tolist())
+                    if got != before[k]:
+                        R.mismatch("lookup-under-new-name!=old-name-before:" + which, {**inner, "chrom": k}, f"got={got} want={before[k]}")
+                    if src[k] != dst[k]:
+                        try:
+                            c.extent(src[k])
+                            R.mismatch("vanished-old-name-still-accepted:" + which, {**inner, "chrom": k}, src[k])
+                        except Exception:
+                            pass
+            except Exception as e:
+                R.mismatch("lookup-raises:" + type(e).__name__ + ":" + which, inner, f"{e!s:.200}")
+        v = h5ref.validate(p)
+        if v:
+            R.mismatch("V:" + v[0], inner, f"{v}")
+    finally:
+        scratch.rm(p)
+
+
 def run(unit, R, tier, only=None):
+    if unit["leg"] == "manycontigs":
+        _manycontigs(R, unit, only)
+        return
     if unit["leg"] == "maps":
         _maps(R, unit, only)
     else:
